@@ -5,10 +5,12 @@
 # coq/Properties/*.vo).  coqchk has no bytecode VM: files whose proofs are
 # large vm_compute sweeps (the bounded cover tables behind C09/C10) take very
 # long; each process is limited to ${COQCHK_TIMEOUT:-5400} s and a time-out
-# (rc=124) is reported as such, not as success.
+# (rc=124) is reported as such, not as success.  COQCHK_IDS="C05 C06" restricts
+# the run to some property files (the summary then still lists every result
+# file found under tmp/coqchk).
 cd /verif/coq
 mkdir -p ../tmp/coqchk
-ls Properties/*.vo | sed 's|Properties/\(.*\)\.vo|\1|' | \
+{ if [ -n "$COQCHK_IDS" ]; then printf '%s\n' $COQCHK_IDS; else ls Properties/*.vo | sed 's|Properties/\(.*\)\.vo|\1|'; fi; } | \
   xargs -P ${COQCHK_JOBS:-8} -I{} bash -c \
   'timeout ${COQCHK_TIMEOUT:-5400} coqchk -silent -o -Q theories Omega -Q gen OmegaGen -Q GenProofs OmegaGP -Q Properties OmegaProps OmegaProps.{} > ../tmp/coqchk/{}.txt 2>&1; echo "rc=$?" >> ../tmp/coqchk/{}.txt'
 for f in ../tmp/coqchk/*.txt; do
